@@ -19,7 +19,7 @@ CHECK_DEADLOCK FALSE
 def canary_lost(traces):
     for tr in traces:
         rec = tr['ev'][-1]
-        if rec['t'] == 'recover' and len(rec['listed']) >= 1 and tr['cls'] != 'crash-none':
+        if rec['t'] == 'recover' and len(rec['listed']) >= 1 and not tr['cls'].startswith('crash-none'):
             c = copy.deepcopy(tr)
             gone = c['ev'][-1]['listed'].pop(0)
             c['ev'][-1]['gets'] = [g for g in c['ev'][-1]['gets'] if g['id'] != gone[1]]
@@ -61,7 +61,7 @@ def run(tier):
              'every file-system effect (mkstemp, each chunk write, rename, unlink) and after the last; then a fresh '
              'DiskStorage (load + get of everything listed) and a fresh started Queue under virtual time; '
              'non-trivial = a crash inside an operation',
-        trigger=lambda tr: tr['cls'] != 'crash-none',
+        trigger=lambda tr: not tr['cls'].startswith('crash-none'),
         assumptions=['process kill, not power loss: data handed to the kernel survives (no fsync modelling)',
                      'the kill is a BaseException raised before the effect; finally-blocks that only close descriptors run, '
                      'as the kernel would'],
